@@ -55,7 +55,7 @@ LEVEL_NOTE = ("Idempotence ('repeating the same sync changes nothing') is proved
 
 
 def generate(tier, rng):
-    n = 4000 if tier == "quick" else 60000
+    n = 9000 if tier == "quick" else 60000
     for _ in range(n):
         yield sc.gen_case(rng, "c13")
 
